@@ -199,10 +199,12 @@ Definition fq (m : Z) (e : N) : Q := Qmake m (Pos.shiftl 1 e).
 
 Inductive vop : Type :=
 | VPush (t : Z) (vs : list Q)
+| VPushM (t : Z) (vs : list Q) (ms : list bool)   (* masked array: [ms] = missing cells *)
 | VPull (t : Z).
 
 Inductive vres : Type :=
 | VOk (vs : list Q)
+| VOkM (vs : list Q) (ms : list bool)              (* delivered masked array *)
 | VErrTime
 | VErrNoData
 | VOther.          (* anything the model cannot produce: always a mismatch *)
@@ -210,14 +212,36 @@ Inductive vres : Type :=
 Definition proj_op (j : nat) (o : vop) : op :=
   match o with
   | VPush t vs => Push t (nth j vs 0%Q)
+  | VPushM t vs _ => Push t (nth j vs 0%Q)
+  | VPull t => Pull t
+  end.
+
+(** Missing cells (numpy masked arrays) are point-wise too: a selection adapter delivers the cell
+    of the selected publication, masked or not; [old + dt * (new - old)] is masked where either
+    operand is.  So cell [j] of a result is missing iff the SAME adapter run on the 0/1 stream
+    "cell j of the publication is missing" gives a non-zero value (for the linear adapter strictly
+    inside an interval: m0 + dt (m1 - m0) with 0 < dt < 1 is non-zero iff m0 or m1 is 1). *)
+Definition proj_mask (j : nat) (o : vop) : op :=
+  match o with
+  | VPush t _ => Push t 0%Q
+  | VPushM t _ ms => Push t (if nth j ms false then 1%Q else 0%Q)
   | VPull t => Pull t
   end.
 
 Definition vop_ok (n : nat) (o : vop) : bool :=
-  match o with VPush _ vs => Nat.eqb (length vs) n | VPull _ => true end.
+  match o with
+  | VPush _ vs => Nat.eqb (length vs) n
+  | VPushM _ vs ms => Nat.eqb (length vs) n && Nat.eqb (length ms) n
+  | VPull _ => true
+  end.
 
 Definition vres_ok (n : nat) (r : vres) : bool :=
-  match r with VOk vs => Nat.eqb (length vs) n | VOther => false | _ => true end.
+  match r with
+  | VOk vs => Nat.eqb (length vs) n
+  | VOkM vs ms => Nat.eqb (length vs) n && Nat.eqb (length ms) n
+  | VOther => false
+  | _ => true
+  end.
 
 (** magnitude scale of one component's publications: 1 + max |v| *)
 Fixpoint scale_of (ops : list op) : Q :=
@@ -248,13 +272,33 @@ Fixpoint all_close (exact : bool) (sc : Q) (ms : list res) (os : list vres) (j :
   | _, _ => false
   end.
 
+(** value and missing-cell flag of component [j]: [mv] = value run, [mm] = run on the mask stream *)
+Definition res_close_m (exact : bool) (sc : Q) (mv mm : res) (o : vres) (j : nat) : bool :=
+  match mv, mm, o with
+  | Ok a, Ok k, VOk _ => Qeq_bool k 0 && res_close exact sc mv o j
+  | Ok a, Ok k, VOkM vs ms =>
+      let missing := negb (Qeq_bool k 0) in
+      Bool.eqb missing (nth j ms false) && (missing || res_close exact sc mv (VOk vs) j)
+  | ErrTime, ErrTime, VErrTime => true
+  | ErrNoData, ErrNoData, VErrNoData => true
+  | _, _, _ => false
+  end.
+
+Fixpoint all_close_m (exact : bool) (sc : Q) (mvs mms : list res) (os : list vres) (j : nat) : bool :=
+  match mvs, mms, os with
+  | [], [], [] => true
+  | mv :: vr, mm :: mr, o :: or => res_close_m exact sc mv mm o j && all_close_m exact sc vr mr or j
+  | _, _, _ => false
+  end.
+
 Record c11_case : Type := mk_case {
   cs_kind : kind; cs_n : nat; cs_exact : bool; cs_ops : list vop }.
 Definition c11_obs : Type := list vres.
 
-(** one list of pull results per payload component *)
-Definition c11_model (c : c11_case) : list (list res) :=
-  map (fun j => run true (cs_kind c) [] (map (proj_op j) (cs_ops c))) (seq 0 (cs_n c)).
+(** per payload component: the pull results and the results on the missing-cell stream *)
+Definition c11_model (c : c11_case) : list (list res * list res) :=
+  map (fun j => (run true (cs_kind c) [] (map (proj_op j) (cs_ops c)),
+                 run true (cs_kind c) [] (map (proj_mask j) (cs_ops c)))) (seq 0 (cs_n c)).
 
 Definition is_linear (k : kind) : bool := match k with KLinear => true | _ => false end.
 
@@ -266,5 +310,6 @@ Definition c11_check (x : c11_case * c11_obs) : bool :=
   Nat.ltb 0 (cs_n c) && forallb (vop_ok (cs_n c)) (cs_ops c) && forallb (vres_ok (cs_n c)) o &&
   forallb (fun j =>
              let ops := map (proj_op j) (cs_ops c) in
-             all_close exact (scale_of ops) (run true (cs_kind c) [] ops) o j)
+             all_close_m exact (scale_of ops) (run true (cs_kind c) [] ops)
+                         (run true (cs_kind c) [] (map (proj_mask j) (cs_ops c))) o j)
           (seq 0 (cs_n c)).
